@@ -343,6 +343,16 @@ func runC18(c *Ctx) {
 	// while the count is positive, and the comment ends only on an end delimiter at count zero.
 	checkNestingCounter(c, p, lexFns, match)
 
+	// R18.14 what Parse returns belongs to the caller: the call writes no package-level state and the list it returns (and
+	// the comments in it) is allocated by this call - not taken from a pool that a later call fills again
+	if parse := p.Func(cpPkg, "Parse"); c.R.Anchor(parse != nil, "commentparser.Parse") {
+		e := runEffects(c, p, "R18.14", effectRoot{fn: parse, name: "Parse", params: provParams(parse, eng.Input, 0)}, []string{core.RootMod}, false)
+		ret := e.Run(parse, provParams(parse, eng.Input, 0))
+		fresh := len(ret) == 1 && ret[0]&^eng.Fresh == 0
+		c.R.Check(fresh, "R18.14", "Parse: the comments returned are allocated by the call", p.Pos(parse.Pos()), "result provenance Fresh",
+			"the list returned can be (or alias) memory that outlives the call (a pooled lexer state, a package-level variable): the next Parse overwrites the comments an earlier caller still holds")
+	}
+
 	// R18.8 the text that is lexed is the input itself
 	checkParseInput(c, p)
 
